@@ -274,10 +274,18 @@ func (v *VM) Eval(sys fs.FS, fname, input string, options ...RunOption) (rets []
 	return rets, nil
 }
 
+// maxCallDepth bounds the nesting of script calls. Every script call nests a few Go frames (about 1.2 KB), and the
+// Go runtime ends the whole process when a goroutine's stack reaches its limit (1 GB, 250 MB on 32-bit systems):
+// runaway recursion has to end in an error of the call before that.
+const maxCallDepth = 100000
+
 func mkFunc(args, rets, slots int, tokens []instruction) func(v *VM) {
 	empty := make([]Value, slots-args)
 	codes := tokens[args+rets:]
 	return func(v *VM) {
+		if len(v.backtrace) >= maxCallDepth {
+			panic("call depth limit exceeded")
+		}
 		v.backtrace = append(v.backtrace, v.frame.Codes[v.frame.N].Pos)
 		prev := v.frame
 		v.frame = frame{
